@@ -114,7 +114,7 @@ def execUnm (args : List String) : String :=
   | _ => "bad-op"
 
 /-- `unmre`: unmarshal arbitrary bytes, marshal the value in byte order `a2`, unmarshal again under the same base type and
-flags — the very terms of `C06_unmarshal_reencode_partial` -/
+flags — the very terms of `C06_unmarshal_reencode` -/
 def execUnmRe (args : List String) : String :=
   match args with
   | [_, _, _, _, _, _] =>
@@ -132,8 +132,7 @@ def execUnmRe (args : List String) : String :=
     | _, _, _, _, _, _ => "bad-op"
   | _ => "bad-op"
 
-/-- the property on the implementation's answer (`C06_unmarshal_reencode_partial`; for the string base type the same
-statement, `C06_unmarshal_reencode_full`): whenever the first read returned a value, it could be marshalled and the second
+/-- the property on the implementation's answer (`C06_unmarshal_reencode`, every base type): whenever the first read returned a value, it could be marshalled and the second
 read returned that very value -/
 def propUnmRe (impl : String) : String :=
   match impl.splitOn " " with
@@ -155,9 +154,23 @@ def hUnmRe : Handler := fun r =>
 def execVany (args : List String) : String :=
   match args with
   | [s] => match parseGoVal s with
-    | some g => printValue (ofAny g)
+    | some g => printValue (ofAny g) ++ " any=" ++ printGoVal (toAny (ofAny g))
     | none => "bad-op"
   | _ => "bad-op"
+
+/-- the property on the implementation's answer (`C06_any_reflect_agrees`, `C06_any_wrap_unwrap`): `proto.Any` returned what
+the typed constructor returns for the value seen by kind, and unwrapping gives the content back as the unnamed type of its
+kind; `n/a` for a float32 signalling NaN through reflection (guard `noSNaN32`) -/
+def propVany (args : List String) (impl : String) : String :=
+  match args with
+  | [s] => match parseGoVal s with
+    | some g =>
+      if !noSNaN32 g then "n/a"
+      else if impl == printValue (ofAnyDirect (underlying g)) ++ " any=" ++ printGoVal (expectAny g) then "ok"
+      else if !impl.startsWith (printValue (ofAnyDirect (underlying g)) ++ " ") then "fail:wrapped-value-differs-from-typed-constructor-of-the-kind"
+      else "fail:unwrapped-value-differs"
+    | none => "n/a"
+  | _ => "n/a"
 
 def execUtf8 (args : List String) : String :=
   match args with
@@ -170,7 +183,12 @@ def execUtf8 (args : List String) : String :=
   | _ => "bad-op"
 
 def hUnm : Handler := modelOnly execUnm
-def hVany : Handler := modelOnly execVany
+def hVany : Handler := fun r =>
+  match r.mode with
+  | .model => execVany r.args
+  | .spec => "n/a"
+  | .prop => propVany r.args r.impl
+  | .kf => "-"
 def hUtf8 : Handler := modelOnly execUtf8
 
 end Drv
